@@ -80,7 +80,8 @@ Proof.
       replace s' with (fst (abort P s c b CConflict)) by now rewrite E.
       replace o with (snd (abort P s c b CConflict)) by now rewrite E.
       split; [apply abort_phs|apply abort_skel].
-    + apply (IH (St (phs s) (table s ++ map (fun t => (t, eff_name cc b name, Val c (npub s) factory)) types)
+    + apply (IH (St (phs s) (table s ++ map (fun t => (t, (if factory then eff_name_fac cc b name else eff_name cc b name),
+                                                          Val c (npub s) factory)) types)
                      (tds s) (status_of s) (armed s) (S (npub s)) (gens s))).
   - destruct (tfind (t, name) (table s)) as [v|]; [|simpl; auto].
     destruct (IH (note_gen s (Some v))) as [A B].
